@@ -872,7 +872,7 @@ pub fn from_json(j: &J) -> Result<C11Scenario, String> {
 // ---------------------------------------------------------------------------------------------
 
 /// Candidate scenarios, each smaller / simpler than `s` by one step. Ordered: big cuts first.
-pub fn shrink_candidates(s: &C11Scenario) -> Vec<C11Scenario> {
+pub fn shrink_candidates(s: &C11Scenario) -> (Vec<C11Scenario>, usize) {
     let mut out = Vec::new();
     // drop executions (never execution 0; fix up twin indices)
     for ei in (1..s.execs.len()).rev() {
@@ -1114,6 +1114,7 @@ pub fn shrink_candidates(s: &C11Scenario) -> Vec<C11Scenario> {
             out.push(c);
         }
     }
+    let content_start = out.len();
     // shrink alternative contents
     for ai in 0..s.alts.len() {
         for smaller in s.alts[ai].shrink() {
@@ -1130,5 +1131,5 @@ pub fn shrink_candidates(s: &C11Scenario) -> Vec<C11Scenario> {
             out.push(c);
         }
     }
-    out
+    (out, content_start)
 }
